@@ -37,14 +37,11 @@ def handleRx (level : Nat) (tb : List String) : String :=
       let t : Relax.T := ⟨n, fun i => matb.getD i false, fun i => preb.getD i false, matGet m⟩
       -- the base of the property: the highest version matching the old requirement
       let last := ((List.range n).reverse.find? fun i => t.mat i)
-      let okset := (List.range n).map fun i =>
-        match last with
-        | some l => decide (l < i) && allows level ((t.diff l i).getD dOther) && level != lNone
-        | none => false
+      let okset := relaxAcceptable t level last
       let r := match Relax.relax t level with
         | none => "fail"
         | some o => (if o.tilde then "t" else "c") ++ toString o.idx
-      s!"r={r} last={match last with | some l => toString l | none => "-"} okset={showBits okset}"
+      s!"r={r} last={match last with | some l => toString l | none => "-"} spec={showBits okset}"
     | _, _ => "bad-op"
   | _ => "bad-op"
 
@@ -56,26 +53,29 @@ def lawsHold (n : Nat) (d : Nat → Nat → Nat) : Bool :=
     ((d a b = dMajor || d a b = dMinor) || (d b c = dMajor || d b c = dMinor) || (d a c != dMajor && d a c != dMinor)) &&
     (d a b != dSame || d b c != dSame || d a c = dSame)
 
-/-- the loop with a round counter -/
-def loopCount (u : Override.U) (level : Nat) : Nat → Nat → Nat → Nat × Nat
-  | 0, vk, k => (vk, k)
-  | f + 1, vk, k => match Override.round u level vk with
-    | none => (vk, k)
-    | some b => loopCount u level f b (k + 1)
+/-- number of rounds `Override.loop` makes (classification only; the result comes from `Override.loop` itself) -/
+def roundsOf (u : Override.U) (level : Nat) : Nat → Nat → Nat
+  | 0, _ => 0
+  | f + 1, vk => match Override.round u level vk with
+    | none => 0
+    | some b => roundsOf u level f b + 1
 
 def handleOv (level : Nat) (tb : List String) : String :=
   match tb with
-  | [n, vk, nv, aff, dm] =>
-    match n.toNat?, vk.toNat?, nv.toNat?, parseMatrix dm with
-    | some n, some vk, some nv, some m =>
+  | [n, ranks, vk, nv, aff, dm] =>
+    match n.toNat?, natsDot ranks, vk.toNat?, nv.toNat?, parseMatrix dm with
+    | some n, some ranks, some vk, some nv, some m =>
       let affRows := (listOf aff ";").map bitsOf
       let d : Nat → Nat → Nat := fun i j => (matGet m i j).getD dOther
-      let u : Override.U := ⟨List.range n, d, nv, fun v r => (affRows.getD v []).getD r false⟩
-      let (final, rounds) := loopCount u level (n + 1) vk 0
-      let greater := Override.versionsGreater u.vs vk
-      let okset := (List.range n).map fun i => i = vk || (decide (vk < i) && allows level (d vk i) && level != lNone)
-      s!"r=ok final={final} greater={joinWith "." (greater.map toString)} rounds={rounds} laws={boolStr (lawsHold n d)} okset={showBits okset}"
-    | _, _, _, _ => "bad-op"
+      let rank : Nat → Nat := fun i => ranks.getD i 0
+      let u : Override.U := ⟨List.range n, rank, d, nv, fun v r => (affRows.getD v []).getD r false⟩
+      let final := Override.loop u level (n + 1) vk
+      let greater := Override.versionsGreater rank u.vs vk
+      -- the specification's verdict per version: the base itself, or an acceptable move from it
+      let spec := (List.range n).map fun i => i = vk || acceptable level rank d vk i
+      let cls := if final != vk && !acceptable level rank d vk final && rank final == rank vk then "C11/override-equal-version" else "-"
+      s!"r=ok final={final} greater={joinWith "." (greater.map toString)} rounds={roundsOf u level (n + 1) vk} laws={boolStr (lawsHold n d)} spec={showBits spec} cls={cls}"
+    | _, _, _, _, _ => "bad-op"
   | _ => "bad-op"
 
 def parseV (s : String) : Option Suggest.V :=
@@ -95,13 +95,11 @@ def handleSg (level : Nat) (tb : List String) : String :=
       let curV : Option Suggest.V := curR.map fun r => ⟨vs.length + 1, r, dSame, true⟩
       let curI : Option Nat := curId.toNat?
       let res := Suggest.suggestFn level simple curV curI vs   -- the harness calls suggestMavenVersion itself
-      let okset := vs.map fun v => match curR with
-        | some r => decide (r < v.rank) && allows level v.diff && level != lNone
-        | none => false
+      let okset := updateAcceptable level curV vs
       let r : String := match res with
         | .keep => "keep"
         | .update v => s!"update:{v.id}"
-      s!"r={r} okset={showBits okset} cls=-"
+      s!"r={r} spec={showBits okset} cls=-"
     | _, _ => "bad-op"
   | _ => "bad-op"
 
@@ -125,7 +123,7 @@ def handleMo (tb : List String) : String :=
       let lresRows : List (List (Option Nat)) := (listOf lres ";").map fun row => (row.splitOn ",").map fun x => x.toNat?
       let affT : List (List (List Bool)) := (listOf aff ";").map fun v => (v.splitOn "/").map bitsOf
       let d : Nat → Nat → Nat → Nat := fun p i j => (matGet (mats.getD p []) i j).getD dOther
-      let u : OverrideMulti.MU := ⟨3, fun p => List.range (counts.getD p 0), d, nv,
+      let u : OverrideMulti.MU := ⟨3, fun p => List.range (counts.getD p 0), fun _ x => x, d, nv,
         fun v p r => (((affT.getD v []).getD p []).getD r false), fun p => levels.getD p 0⟩
       let lresOf : Nat → Option Nat → Option Nat := fun a b => ((lresRows.getD a []).getD (b.getD 0) none)
       let resolve : OverrideMulti.Pins → OverrideMulti.Res := fun pins =>
@@ -135,9 +133,12 @@ def handleMo (tb : List String) : String :=
           | some av => (match lresOf av b with | some base => some ((pins.getD 2 none).getD base) | none => none)
           | none => none
         [a, b, l]
-      let (pins, rounds) := OverrideMulti.loop u resolve (na + nb + nl + 2) pins0 0
+      -- fuel: the bound of C11_terminates_multi_bound_partial; `done=0` would mean it ran out
+      let out := OverrideMulti.loop u resolve ((na + 1) + (nb + 1) + (nl + 1) + 1) pins0 0
+      let pins := out.pins
+      let rounds := out.rounds
       let okOf : Nat → Nat → List Bool := fun p base =>
-        (List.range (counts.getD p 0)).map fun i => decide (base < i) && allows (levels.getD p 0) (d p base i) && levels.getD p 0 != lNone
+        (List.range (counts.getD p 0)).map fun i => acceptable (levels.getD p 0) id (d p) base i
       let okA := match pins0.getD 0 none with | some a0 => okOf 0 a0 | none => []
       let okB := match pins0.getD 1 none with | some b0 => okOf 1 b0 | none => []
       let okL := (List.range na).map fun a => (List.range (max nb 1)).map fun b =>
@@ -151,7 +152,7 @@ def handleMo (tb : List String) : String :=
           | some base => if (okOf 2 base).getD l false then "-" else "C11/override-pin-overtaken"
           | none => "-")
         | _, _ => "-"
-      s!"r=ok pins={showOpts pins} res={showOpts (resolve pins)} rounds={rounds} cls={cls} okA={showBits okA} okB={showBits okB} okL={";".intercalate (okL.map fun row => ",".intercalate row)}"
+      s!"r=ok pins={showOpts pins} res={showOpts (resolve pins)} rounds={rounds} done={boolStr out.done} cls={cls} okA={showBits okA} okB={showBits okB} okL={";".intercalate (okL.map fun row => ",".intercalate row)}"
     | _, _, _, _, _ => "bad-op"
   | _ => "bad-op"
 
@@ -174,13 +175,11 @@ def handleUp (tb : List String) : String :=
       let idx := List.range res.length
       let ups := (idx.zip res).filterMap fun (i, r) => match r with | .update v => some s!"{i}:{v.id}" | .keep => none
       let pom := res.map fun r => match r with | .update v => toString v.id | .keep => "="
-      let oks := rbs.map fun rb => showBits (rb.vs.map fun v => match rb.cur with
-        | some c => decide (c.rank < v.rank) && allows rb.level v.diff && rb.level != lNone && !rb.skip
-        | none => false)
+      let oks := rbs.map fun rb => showBits (if rb.skip then rb.vs.map (fun _ => false) else updateAcceptable rb.level rb.cur rb.vs)
       -- two declarations with one dependency key: which of them the writer rewrites is C13/pom-origin-ignored, so the
       -- written pom is reported under another field name and not compared
       let field := if dup = "1" then "pomd" else "pom"
-      s!"r=ok ups={joinWith "," ups} {field}={joinWith "," pom} oks={joinWith ";" oks}"
+      s!"r=ok ups={joinWith "," ups} {field}={joinWith "," pom} spec={joinWith ";" oks}"
     | none => "bad-op"
   | _ => "bad-op"
 
